@@ -13,6 +13,7 @@ KIND_NAMES = {
     1603: 'C16/http_parse: HTTP response interpretation vs Tracker.http_response',
     301: 'C03/cached_read: cachedpiece.ReadAt vs Cache.cached_read',
     302: 'C03/cache: piececache.Cache vs Cache.cache_get (LRU)',
+    303: 'C03/admission: request handling of the stepped event loop vs Admission.serve',
     1801: 'C18/blocklist: blocklist.Reload+Blocked vs Stree.reload/contains',
     1802: 'C18/stree: stree.Contains vs Stree.build/contains',
     1803: 'C18/addrlist: addrlist Push/Pop/Reset vs AddrList.v',
@@ -44,7 +45,7 @@ TRUSTED_COMMON = [
 
 PROPS = {
     'C13': {
-        'kinds': {1301: {'quick': 2500, 'thorough': 50000}, 1302: {'quick': 3000, 'thorough': 60000}},
+        'kinds': {1301: {'quick': 2500, 'thorough': 50000}, 1302: {'quick': 3000, 'thorough': 60000}, 303: {'quick': 160, 'thorough': 2400}},
         'trusted': ['net/url (Parse, ParseQuery, QueryEscape) beyond sampled agreement with the byte-level model', 'SHA-1 (adoption compares the digest of the assembled bytes with the info-hash)'],
         'assumptions': [],
     },
@@ -59,7 +60,7 @@ PROPS = {
         'assumptions': ['the torrent loop calls the picker under the glue discipline modelled by Picker.pstep'],
     },
     'C03': {
-        'kinds': {301: {'quick': 3000, 'thorough': 60000}, 302: {'quick': 3000, 'thorough': 60000}},
+        'kinds': {301: {'quick': 3000, 'thorough': 60000}, 302: {'quick': 3000, 'thorough': 60000}, 303: {'quick': 160, 'thorough': 2400}},
         'trusted': ['container/heap keeps the least recently used item at index 0; time.AfterFunc TTL expiry is not exercised (TTL one hour)'],
         'assumptions': ['0 < ReadCacheBlockSize < 2^31; piece length < 2^32'],
     },
